@@ -173,6 +173,20 @@ fn main() {
             }
         }
     }
+    // arguments with more fraction digits than the result has significant digits (99..200 places): nothing
+    // beyond the precision of the RESULT may be dropped from the ARGUMENT, because the relative error of e^x is
+    // the absolute error of x; integer parts -12..12, fraction patterns nines / filler / 0..01 / 50..01
+    let frac_lens: Vec<usize> = tier.pick(vec![99, 100, 101, 102, 110, 150], vec![98, 99, 100, 101, 102, 103, 105, 110, 117, 118, 130, 150, 200, 300]);
+    run.bound("long_fraction_lengths", json!(frac_lens));
+    for &l in &frac_lens {
+        let fr: Vec<String> = vec!["9".repeat(l), filler_digits(run.seed(), 1000 + l as u64, l), format!("{}1", "0".repeat(l - 1)), format!("5{}1", "0".repeat(l - 2))];
+        for ip in -12i64..=12 {
+            for f in fr.iter() {
+                let n = BigInt::from(ip.abs()) * pow10(l as u64) + big(f);
+                args.push(Dec { n: if ip < 0 { -n } else { n }, s: l as i128 });
+            }
+        }
+    }
     for s in [0i128, 7, -7] {
         args.push(Dec::new(0, s));
     }
